@@ -449,6 +449,36 @@ fn exec_inner(op: &str, a: &Value, st: &mut State) -> Value {
             let ns = geti(a, "ns") as u32;
             DateTime::from_timespec(t, ns, zone_ref(st)).map(|x| dt_json(&x)).map(ok).unwrap_or_else(err)
         }
+        "roundtrip" => {
+            // C05: the local date-time of an instant, searched for again in the same zone (own 8-slot buffer: all feature sets)
+            let t = w_to_i64(getv(a, "u"));
+            let ns = geti(a, "ns") as u32;
+            let dt = match DateTime::from_timespec(t, ns, zone_ref(st)) {
+                Ok(x) => x,
+                Err(e) => {
+                    let mut v = err(e);
+                    v.as_object_mut().unwrap().insert("stage".into(), Value::from("localtime"));
+                    return v;
+                }
+            };
+            let mut buf: [Option<FoundDateTimeKind>; 8] = [None; 8];
+            match DateTime::find_n(&mut buf, dt.year(), dt.month(), dt.month_day(), dt.hour(), dt.minute(), dt.second(), ns, zone_ref(st)) {
+                Ok(l) => {
+                    let lt = dt.local_time_type();
+                    let hits = l.data().iter().flatten().filter(|k| match k {
+                        FoundDateTimeKind::Normal(d) => d.unix_time() == t && d.nanoseconds() == ns && d.local_time_type() == lt,
+                        _ => false,
+                    }).count();
+                    ok(json!({ "dt": dt_json(&dt), "hits": hits, "n": l.count() }))
+                }
+                Err(e) => {
+                    let mut v = err(e);
+                    v.as_object_mut().unwrap().insert("stage".into(), Value::from("find"));
+                    v.as_object_mut().unwrap().insert("dt".into(), dt_json(&dt));
+                    v
+                }
+            }
+        }
         "project" => {
             // source date-time given as (t, ns, type); projected into the current zone
             let t = w_to_i64(getv(a, "t"));
